@@ -170,9 +170,17 @@ class World:
                 return t
 
         eg = dict(cfg.get("env_globals") or {})
-        self.env_globals_now = dict(eg)   # (the plan itself is never mutated by a run)
         self.env = ObsEnv(loader=self.loader, globals=dict(eg))
         self.cenv = Environment(loader=self.cloader, globals=dict(eg))
+        self.envs = [self.env]
+        self.cenvs = [self.cenv]
+        self.env_g = [dict(eg)]   # env globals as of now (the plan itself is never mutated by a run)
+        if cfg.get("env2") is not None:
+            # a second Environment of the same configuration, other globals, SHARING the caching loader
+            eg2 = dict(cfg["env2"])
+            self.envs.append(ObsEnv(loader=self.loader, globals=dict(eg2)))
+            self.cenvs.append(Environment(loader=self.cloader, globals=dict(eg2)))
+            self.env_g.append(dict(eg2))
         self.model = LruModel(self.capacity)
         self.models: list[LruModel] = [self.model]   # every cache state still possible
         self.model_known = True
@@ -541,13 +549,16 @@ class World:
                     c.activate()
                     self_inner.clone = c
                     self_inner.saved = world.cenv.loader
-                    world.cenv.loader = c.make_loader(False)
+                    ld = c.make_loader(False)
+                    for ce in world.cenvs:
+                        ce.loader = ld
                 return self_inner
 
             def __exit__(self_inner, *a):
                 world.store.rlog.observer -= 1
                 if self_inner.clone is not None:
-                    world.cenv.loader = self_inner.saved
+                    for ce in world.cenvs:
+                        ce.loader = self_inner.saved
                     world.store.activate()
                 return False
 
@@ -569,20 +580,24 @@ def do_load(w: World, op: dict):
     """Sequential load.  Returns (outcome, template|None, twin|None, stale, known)."""
     kw = _kw(w, op)
     g = op.get("g")
+    e = op.get("e", 0) if len(w.envs) > 1 else 0
+    env, cenv = w.envs[e], w.cenvs[e]
+    if e:
+        w.count("second_env_load")
     direct = bool(op.get("direct"))   # BaseLoader.load()/load_async() called by the application itself
     if op["mode"] == "s":
         try:
             if direct:
                 lk = w.begin(op["name"], None, kw)
                 try:
-                    t0 = w.loader.load(w.env, op["name"], globals=g, **kw)
+                    t0 = w.loader.load(env, op["name"], globals=g, **kw)
                 except BaseException as exc:  # noqa: BLE001
                     w.end(lk, None, exc)
                     raise
                 w.end(lk, t0, None)
                 out = ("ok", t0)
             else:
-                out = ("ok", w.env.get_template(op["name"], globals=g, **kw))
+                out = ("ok", env.get_template(op["name"], globals=g, **kw))
         except Inconclusive:
             raise
         except BaseException as exc:  # noqa: BLE001
@@ -592,13 +607,13 @@ def do_load(w: World, op: dict):
             if direct:
                 lk = w.begin(op["name"], None, kw)
                 try:
-                    t0 = await w.loader.load_async(w.env, op["name"], globals=g, **kw)
+                    t0 = await w.loader.load_async(env, op["name"], globals=g, **kw)
                 except BaseException as exc:  # noqa: BLE001
                     w.end(lk, None, exc)
                     raise
                 w.end(lk, t0, None)
                 return t0
-            return await w.env.get_template_async(op["name"], globals=g, **kw)
+            return await env.get_template_async(op["name"], globals=g, **kw)
         out = run_async(w, co(), op)
     lookups = w.take()
     stale = w.judge_seq(lookups)
@@ -607,9 +622,9 @@ def do_load(w: World, op: dict):
         return None, None
     with w.with_clone(stale):
         if direct:
-            tw = canon_call(w.cenv.loader.load, w.cenv, op["name"], globals=g, **kw)
+            tw = canon_call(cenv.loader.load, cenv, op["name"], globals=g, **kw)
         else:
-            tw = canon_call(w.cenv.get_template, op["name"], globals=g, **kw)
+            tw = canon_call(cenv.get_template, op["name"], globals=g, **kw)
     if out[0] == "ok":
         if tw[0] != "ok":
             raise Violation("load_mismatch", got="ok", expected=tw, lookups=[l.brief() for l in lookups])
@@ -688,7 +703,7 @@ def do_render(w: World, op: dict, t, twin):
                 # name, so only attribution (R4) is checked on the text.
                 w.count("seq_diff_skipped_ambiguous")
                 if out[0] == "ok":
-                    check_tokens(out[1], d, op.get("g_bound"), op.get("env_g_bound", w.env_globals_now))
+                    check_tokens(out[1], d, op.get("g_bound"), op.get("env_g_bound", w.env_g[0]))
                 return
             seen[cn] = res
     with w.with_clone(stale):
@@ -727,7 +742,8 @@ def do_par(w: World, op: dict):
 
     async def lr(i, tk):
         kw = _kw(w, tk)
-        t = await w.env.get_template_async(tk["name"], globals=tk.get("g"), **kw)
+        e = tk.get("e", 0) if len(w.envs) > 1 else 0
+        t = await w.envs[e].get_template_async(tk["name"], globals=tk.get("g"), **kw)
         await park("gap")
         return await t.render_async(**w.data_for(tk["data"], f"T{i}"))
 
@@ -882,7 +898,7 @@ def do_par(w: World, op: dict):
                 if lk not in stale:
                     stale.append(lk)
         if res[0] == "ok":
-            check_tokens(res[1], tk["data"], tk.get("g"), w.env_globals_now)
+            check_tokens(res[1], tk["data"], tk.get("g"), w.env_g[tk.get("e", 0) if len(w.envs) > 1 else 0])
         if res[0] == "err" and res[1] == "CancelledError":
             if i not in cancelled_targets:
                 # nobody cancelled this caller: another caller's cancellation reached it
@@ -904,7 +920,7 @@ def do_par(w: World, op: dict):
         fix = [] if final_live else [lk for lk in mine if lk.served is not None]
         with w.with_clone(fix):
             kw = _kw(w, tk)
-            tw = canon_call(w.cenv.get_template, tk["name"], globals=tk.get("g"), **kw)
+            tw = canon_call(w.cenvs[tk.get("e", 0) if len(w.envs) > 1 else 0].get_template, tk["name"], globals=tk.get("g"), **kw)
             if tw[0] == "ok":
                 exp = canon_call(tw[1].render, **w.data_for(tk["data"], "ref"))
             else:
@@ -1032,7 +1048,7 @@ def execute(plan: dict) -> dict:
                     t, twin = do_load(w, op)
                     if t is not None:
                         # a loaded template carries the environment globals as of load time
-                        w.handles[op["h"]] = (t, twin, op.get("g"), dict(w.env_globals_now))
+                        w.handles[op["h"]] = (t, twin, op.get("g"), dict(w.env_g[op.get("e", 0) if len(w.envs) > 1 else 0]))
                     else:
                         w.handles.pop(op["h"], None)
                 elif k == "render":
@@ -1042,7 +1058,8 @@ def execute(plan: dict) -> dict:
                 elif k == "lr":
                     t, twin = do_load(w, op)
                     if t is not None:
-                        do_render(w, {**op, "id": f"{op['id']}r", "g_bound": op.get("g")}, t, twin)
+                        do_render(w, {**op, "id": f"{op['id']}r", "g_bound": op.get("g"),
+                                      "env_g_bound": dict(w.env_g[op.get("e", 0) if len(w.envs) > 1 else 0])}, t, twin)
                 elif k in ("write", "delete", "blockdir", "unblockdir", "dirify"):
                     apply_mutation(w, op)
                 elif k == "unavail":
@@ -1053,14 +1070,15 @@ def execute(plan: dict) -> dict:
                     w.count("F7_clock")
                 elif k == "envg":
                     # the application changes an environment global between loads
+                    e = op.get("e", 0) if len(w.envs) > 1 else 0
                     if op["v"] is None:      # the global is removed again (globals may become empty)
-                        w.env.globals.pop("gv", None)
-                        w.cenv.globals.pop("gv", None)
-                        w.env_globals_now = {}
+                        w.envs[e].globals.pop("gv", None)
+                        w.cenvs[e].globals.pop("gv", None)
+                        w.env_g[e] = {}
                     else:
-                        w.env.globals["gv"] = op["v"]
-                        w.cenv.globals["gv"] = op["v"]
-                        w.env_globals_now = {**w.env_globals_now, "gv": op["v"]}
+                        w.envs[e].globals["gv"] = op["v"]
+                        w.cenvs[e].globals["gv"] = op["v"]
+                        w.env_g[e] = {**w.env_g[e], "gv": op["v"]}
                     w.count("env_globals_changed")
                 elif k == "par":
                     do_par(w, op)
@@ -1301,6 +1319,17 @@ def gen_plan(seed: int, tier: str) -> dict:
         f["name"] = n
         f["mode"] = "s"
         ops.append({"op": "lr", "id": nid(), "recovery": True, **f})
+    # a second Environment sharing the caching loader (own random stream: base plans keep their shape)
+    rng2 = random.Random(f"c14e:{seed}")
+    if rng2.random() < 0.3:
+        cfg["env2"] = rng2.choice([{"gv": "F"}, {"gv": "F"}, {}])
+        for op in ops:
+            if op["op"] in ("lr", "load", "envg") and rng2.random() < 0.4:
+                op["e"] = 1
+            elif op["op"] == "par":
+                for tk in op["tasks"]:
+                    if tk["t"] == "lr" and rng2.random() < 0.4:
+                        tk["e"] = 1
     return {"property": PROP, "seed": seed, "cfg": cfg, "init": init, "ops": ops}
 
 
